@@ -3,6 +3,16 @@
  * LE = least significant byte first, two's complement, IEEE-754 binary64 bit pattern for doubles. */
 #ifndef VERIF_SPEC_H
 #define VERIF_SPEC_H
+/* replay variant: inputs live in named static arrays, assigned byte by byte, so that a cbmc trace spells them out */
+#ifdef VERIF_REPLAY
+#ifndef VERIF_REPLAY_N
+#define VERIF_REPLAY_N 96
+#endif
+uint8_t verif_in[VERIF_REPLAY_N]; size_t verif_in_len;
+uint8_t verif_payload[VERIF_REPLAY_N]; size_t verif_payload_len;
+unsigned char nondet_uchar(void);
+#define VERIF_REPLAY_FILL(arr, len) { __CPROVER_havoc_object(arr); len = nondet_size_t(); __CPROVER_assume(len <= VERIF_REPLAY_N); }
+#endif
 /* harness input builders ------------------------------------------------------------------------------- */
 /* p points at least N bytes before the end of a heap buffer of arbitrary size; remembers base/size for frames */
 #define RBUF(p, N) \
@@ -17,17 +27,27 @@
   size_t p##_off = nondet_size_t(); size_t p##_eoff = nondet_size_t(); __CPROVER_assume(p##_off <= p##_eoff && p##_eoff <= p##_n); \
   p = p##_base + p##_off; e = p##_base + p##_eoff;
 /* a byte vector of arbitrary size */
+#ifdef VERIF_REPLAY
+#define BYTEVEC(v) VERIF_REPLAY_FILL(verif_in, verif_in_len) (v).size = verif_in_len; (v).cap = VERIF_REPLAY_N; (v).data = verif_in;
+#else
 #define BYTEVEC(v) \
   (v).size = nondet_size_t(); __CPROVER_assume((v).size <= VERIF_MAXBUF); (v).cap = (v).size; \
   (v).data = (uint8_t*)malloc((v).size ? (v).size : 1); __CPROVER_assume((v).data != 0);
+#endif
 /* validity of a vector in the abstract container model: storage object of cap elements, size <= cap */
 #define VEC_VALID(v) ((v).size <= (v).cap && (v).data != 0 && __CPROVER_rw_ok((v).data, (v).cap * sizeof(*(v).data)))
 #define RANGE_OK(p, e) (__CPROVER_same_object(p, e) && (p) <= (e) && __CPROVER_r_ok(p, (size_t)((e) - (p))))
 /* stub side: a fresh vector of n elements with arbitrary contents */
 #define FRESH_VEC(v, n) \
   (v).size = (n); (v).cap = (v).size ? (v).size : 1; (v).data = malloc((v).cap * sizeof(*(v).data)); __CPROVER_assume((v).data != 0);
+#ifdef VERIF_REPLAY
+#define FRESH_VEC_ANY(v, maxn) \
+  { if (sizeof(*(v).data) == 1 && verif_payload_len == (size_t)-1) { VERIF_REPLAY_FILL(verif_payload, verif_payload_len) (v).size = verif_payload_len; (v).cap = VERIF_REPLAY_N; (v).data = (void*)verif_payload; } \
+    else { size_t __n = nondet_size_t(); __CPROVER_assume(__n <= (maxn) && __n <= 8); FRESH_VEC(v, __n) } }
+#else
 #define FRESH_VEC_ANY(v, maxn) \
   { size_t __n = nondet_size_t(); __CPROVER_assume(__n <= (maxn)); FRESH_VEC(v, __n) }
+#endif
 /* frame: one arbitrary byte of the buffer under p, remembered before the call */
 #define FRAME_PRE(p) size_t p##_fj = nondet_size_t(); __CPROVER_assume(p##_fj < p##_n); uint8_t p##_fold = p##_base[p##_fj];
 #define FRAME_OK(p, lo, hi) ((p##_fj >= p##_off + (lo) && p##_fj < p##_off + (hi)) || p##_base[p##_fj] == p##_fold)
